@@ -239,6 +239,21 @@ Section TopArray.
   Qed.
 End TopArray.
 
+(* the guards of TreeOps.get_by_index_t / nthZ (compare with the length before converting to a unary number) change nothing:
+   an index beyond the end finds nothing anyway *)
+Lemma nth_opt_past {A} (l : list A) : forall n, (length l <= n)%nat -> nth_opt l n = None.
+Proof. induction l as [|x r IH]; intros [|n] H; cbn [nth_opt length] in *; try reflexivity; [lia|apply IH; lia]. Qed.
+Lemma get_by_index_t_nth v i : get_by_index_t v i = match v with VArr l => nth_opt l (N.to_nat i) | _ => None end.
+Proof.
+  destruct v as [| | | |l|]; try reflexivity. cbn [get_by_index_t]. destruct (lenN l <=? i) eqn:E; [|reflexivity].
+  apply N.leb_le in E. symmetry. apply nth_opt_past. unfold lenN in E. lia.
+Qed.
+Lemma nthZ_spec {A} (l : list A) i : nthZ l i = if (i <? 0)%Z then None else nth_opt l (Z.to_nat i).
+Proof.
+  unfold nthZ. destruct (i <? 0)%Z eqn:E1; [reflexivity|]. cbn [orb]. destruct (lenZ l <=? i)%Z eqn:E2; [|reflexivity].
+  apply Z.leb_le in E2. apply Z.ltb_ge in E1. symmetry. apply nth_opt_past. unfold lenZ in E2. lia.
+Qed.
+
 (* where element n of an array at offset |A| lives *)
 Lemma arr_elem_loc A l B n x : nth_opt l n = Some x ->
   exists A' B', A ++ payload (VArr l) ++ B = A' ++ payload x ++ B' /\
@@ -576,7 +591,7 @@ Lemma scalar_keypath_none x k r : is_container x = false -> get_by_keypath_t x (
 Proof. destruct x, k; cbn; intros H; try discriminate H; reflexivity. Qed.
 
 Lemma nthZ_nat {A} (l : list A) z : (0 <= z)%Z -> nthZ l z = nth_opt l (N.to_nat (Z.to_N z)).
-Proof. intros H. unfold nthZ. destruct (z <? 0)%Z eqn:E; [apply Z.ltb_lt in E; lia|]. rewrite Z_N_nat. reflexivity. Qed.
+Proof. intros H. rewrite nthZ_spec. destruct (z <? 0)%Z eqn:E; [apply Z.ltb_lt in E; lia|]. rewrite Z_N_nat. reflexivity. Qed.
 
 Lemma wfb_arr_elem l x : wfb (VArr l) = true -> In x l -> wfb x = true.
 Proof. intros H Hin. destruct (wf_arr l H) as [Ha _]. rewrite Forall_forall in Ha. apply Ha. exact Hin. Qed.
@@ -799,7 +814,7 @@ Qed.
   Proof.
     intros Hwf Htop. pose proof (is_jsonb_enc v Hwf Htop) as Hj.
     unfold get_by_index_w. rewrite Hj. clear Hj Htop. destruct v as [|b|s|n|l|o]; try (unfold get_by_index_b; rewrite scalar_hdr by reflexivity; reflexivity).
-    - apply (get_by_index_b_arr l Hwf).
+    - rewrite get_by_index_t_nth. apply (get_by_index_b_arr l Hwf).
     - destruct (obj_ok_of_wf o Hwf) as [Ho Hn]. unfold get_by_index_b.
       assert (Ebs : enc (VObj o) = [] ++ payload (VObj o) ++ []) by (rewrite app_nil_r; reflexivity).
       rewrite Ebs. change 0 with (lenN (@nil N)). rewrite (read_hdr_obj [] o [] Hn).
